@@ -25,7 +25,7 @@ type Profile struct {
 }
 
 func weighted(w map[string]int) []string {
-	order := []string{"resolve", "reserr", "state", "pick", "done", "adv", "failnew", "cancel", "allready", "bindflow", "decall", "readyrepl", "staledown", "emptypool", "saturate", "refreshcycle", "stalede", "affswap", "fbflow", "bindacross", "growmax", "multibind", "fillwm", "affburst", "flaprefresh", "rrempty", "rrstraddle", "unbindrace", "resurrect", "rrwrap", "rrdead", "fbtwice", "rrresurrect", "rrlongwait"}
+	order := []string{"resolve", "reserr", "state", "pick", "done", "adv", "failnew", "cancel", "allready", "bindflow", "decall", "readyrepl", "staledown", "emptypool", "saturate", "refreshcycle", "stalede", "affswap", "fbflow", "bindacross", "growmax", "multibind", "fillwm", "affburst", "flaprefresh", "rrempty", "rrstraddle", "unbindrace", "resurrect", "rrwrap", "rrdead", "fbtwice", "rrresurrect", "rrlongwait", "hashpair"}
 	var out []string
 	for _, k := range order {
 		for i := 0; i < w[k]; i++ {
@@ -458,6 +458,25 @@ func genStep(p *Profile, cfg *Config) *rapid.Generator[[]Op] {
 				ops = append(ops, Op{K: "state", Sel: 5, Key: key, St: 2}, Op{K: "pick", M: 2, Key: key})
 			}
 			return ops
+		case "hashpair":
+			// two keys that collide under a common string hash: both bound (the second after some load, so mostly elsewhere),
+			// one unbound again, then the other one is used: it is still bound to its channel
+			pi := rapid.IntRange(0, HashPairs-1).Draw(t, "pair")
+			ka, kb := 12+2*pi, 13+2*pi
+			if rapid.Bool().Draw(t, "pairswap") {
+				ka, kb = kb, ka
+			}
+			var ops []Op
+			for i := 0; i < 6; i++ {
+				ops = append(ops, Op{K: "state", Idx: i, St: 2})
+			}
+			ops = append(ops, Op{K: "pick", M: 1, Key: ka}, Op{K: "done", Idx: -1, Out: 0}, Op{K: "pick", M: 0},
+				Op{K: "pick", M: 1, Key: kb}, Op{K: "done", Idx: -1, Out: 0}, Op{K: "pick", M: 0}, Op{K: "pick", M: 0},
+				Op{K: "pick", M: 2, Key: ka}, Op{K: "pick", M: 2, Key: kb},
+				Op{K: "pick", M: 3, Key: ka}, Op{K: "done", Idx: -1, Out: 0},
+				Op{K: "pick", M: 2, Key: kb}, Op{K: "pick", M: 2, Key: kb}, Op{K: "pick", M: 2, Key: ka},
+				Op{K: "pick", M: 3, Key: kb}, Op{K: "done", Idx: -1, Out: 0}, Op{K: "pick", M: 2, Key: kb})
+			return ops
 		case "multibind":
 			// a BIND whose response carries several keys, some of them bound already; then the keys are used
 			k1 := rapid.IntRange(0, 3).Draw(t, "mk1")
@@ -659,7 +678,7 @@ var hostileMethods = []int{0, 1, 2, 3, 4, 5, 6, 7, 8, 9, 14, 15, 16, 17, 18, 19,
 // Profiles by name.
 var Profiles = map[string]*Profile{
 	"affinity": {Name: "affinity", Min: [2]int{1, 4}, Max: [2]int{1, 5}, WM: []int{1, 2, 3, 100}, Fallback: 30, UdMs: []int64{0, 7, 100}, UdCalls: []int{1, 1, 2}, Strict: 50, Shutdown: true,
-		W: map[string]int{"resolve": 1, "state": 8, "pick": 18, "done": 10, "adv": 2, "allready": 2, "bindflow": 10, "decall": 8, "readyrepl": 8, "staledown": 3, "affswap": 8, "fbflow": 2, "stalede": 1, "bindacross": 6, "multibind": 6, "unbindrace": 5}, Methods: allMethods},
+		W: map[string]int{"resolve": 1, "state": 8, "pick": 18, "done": 10, "adv": 2, "allready": 2, "bindflow": 10, "decall": 8, "readyrepl": 8, "staledown": 3, "affswap": 8, "fbflow": 2, "stalede": 1, "bindacross": 6, "multibind": 6, "unbindrace": 5, "hashpair": 4}, Methods: allMethods},
 	"load": {Name: "load", Min: [2]int{1, 5}, Max: [2]int{1, 5}, WM: []int{1, 2, 3, 4, 5}, Fallback: 20, UdMs: []int64{0, 7, 100}, UdCalls: []int{1, 2}, RR: 15, Strict: 50,
 		W: map[string]int{"resolve": 1, "state": 8, "pick": 25, "done": 22, "adv": 2, "allready": 3, "bindflow": 3, "decall": 6, "readyrepl": 6, "staledown": 3, "saturate": 3, "refreshcycle": 3, "stalede": 2, "fbflow": 3, "flaprefresh": 3, "affburst": 1, "multibind": 3}, Methods: []int{0, 0, 0, 0, 2, 2, 9, 1, 3, 28}},
 	"size": {Name: "size", Wild: true, WM: []int{1}, Fallback: 10, UdMs: []int64{0, 7}, UdCalls: []int{1}, Strict: 50, Shutdown: true,
